@@ -194,6 +194,11 @@ func (w *World) TPkg(short string) *packages.Package {
 func (w *World) Fn(short, name string) *ssa.Function {
 	f := w.FnOpt(short, name)
 	if f == nil {
+		// a mandatory anchor that is not declared under its name: found again by what it is (an optional
+		// anchor – FnOpt – that is missing is simply missing)
+		f = w.fnBySignature(short, name)
+	}
+	if f == nil {
 		fatalf("anchor: function %s.%s not found", short, name)
 	}
 	return f
@@ -225,14 +230,11 @@ func (w *World) FnOpt(short, name string) *ssa.Function {
 		}
 		sel := w.Prog.MethodSets.MethodSet(T).Lookup(p.Pkg, mn)
 		if sel == nil {
-			return w.fnBySignature(short, name)
+			return nil
 		}
 		return w.Prog.MethodValue(sel)
 	}
-	if f := p.Func(name); f != nil {
-		return f
-	}
-	return w.fnBySignature(short, name)
+	return p.Func(name)
 }
 
 // namelessSig: receiver type and signature of f without the names of its parameters.
